@@ -361,10 +361,13 @@ func exhaustiveC05(thorough bool, emit func(C05Case) bool) {
 	}
 	// multi-byte tokens at the start and inside of names, first and later trees
 	for _, tok := range gen.HostileTokens {
-		for pos := 0; pos < 2; pos++ {
+		for pos := 0; pos < 3; pos++ {
 			val := append(append(gen.B{}, tok...), 'x')
 			if pos == 1 {
 				val = append(append(gen.B{'x'}, tok...), 'y')
+			}
+			if pos == 2 {
+				val = append(gen.B{}, tok...) // the token is the whole field
 			}
 			ts := gen.TreeSpec{Parents: []int{0, 0}, Names: []gen.B{val, gen.B("k"), val}, Dists: []gen.F{0, 1.5}}
 			if !emit(C05Case{Trees: []gen.TreeSpec{ts, {Names: []gen.B{val}}, ts}, Sep: "\n"}) {
